@@ -778,12 +778,21 @@ def accept_nodes(cx_src_raw, path_repo):
     raw = open(path_repo).read()
     s = blank(raw)
     cx = Ctx(s, raw)
-    span = body_span(s, "accept")
-    if not span:
+    # the `Transport::accept` of the file: the `fn accept` whose body returns a boxed future (verification
+    # facades in the same file have forwarding functions of the same name); exactly one must qualify
+    found = []
+    for mm in re.finditer(r"\bfn\s+accept\s*\(", s):
+        close_par = match_close(s, mm.end() - 1)
+        i = s.find("{", close_par)
+        if i < 0:
+            continue
+        sp = (i + 1, match_close(s, i))
+        m1 = re.search(r"Ok\s*\(\s*Box::pin\s*\(\s*async\s+move\s*\{", s[sp[0]:sp[1]])
+        if m1:
+            found.append((sp, m1))
+    if len(found) != 1:
         return None
-    m = re.search(r"Ok\s*\(\s*Box::pin\s*\(\s*async\s+move\s*\{", s[span[0]:span[1]])
-    if not m:
-        return None
+    span, m = found[0]
     b = span[0] + m.end() - 1
     be = match_close(s, b)
     return parse_block(cx, b + 1, be)
